@@ -93,7 +93,7 @@ def Obj.isUndefined : Obj → Bool
 /- `reflect.DeepEqual` on two objects of the same dynamic type -/
 mutual
   def Obj.beq : Obj → Obj → Bool
-    | .num a, .num c => a == c   -- DeepEqual compares the float64 fields: structural on normalised F64
+    | .num a, .num c => F64.eq a c   -- DeepEqual compares the float64 fields with ==: -0 equals 0
     | .str a, .str c => a == c
     | .bin a, .bin c => a == c
     | .bool a, .bool c => a == c
@@ -101,7 +101,7 @@ mutual
     | .list xs, .list ys => Obj.beqList xs ys
     | .map xs, .map ys => Obj.beqMap xs ys
     | .sset a, .sset c => a == c
-    | .nset a, .nset c => a == c
+    | .nset a, .nset c => a.length == c.length && (a.zip c).all fun (x, y) => F64.eq x y   -- map keys: -0 and 0 are one key
     | .bset a, .bset c => a == c
     | .hole, .hole => true
     | _, _ => false
